@@ -257,6 +257,9 @@ func racePass() {
 			s.h.ServeHTTP(rec, rs.build())
 			want[i] = fmt.Sprintf("%d %q %q", rec.Code, rec.Header().Get("Content-Type"), canonLists(rec.Body.String()))
 		}
+		// the concurrent phase runs on a handler that has not served anything yet: whatever is built or
+		// remembered lazily is built under concurrency
+		s = newSite(newWorld(false))
 		var wg sync.WaitGroup
 		var mu sync.Mutex
 		bad := ""
@@ -273,6 +276,40 @@ func racePass() {
 					if got != want[i] {
 						mu.Lock()
 						bad = fmt.Sprintf("scenario %s request %s: got %s want %s", sc.Name, sc.Reqs[i].Name, got, want[i])
+						mu.Unlock()
+					}
+				}
+			}()
+		}
+		wg.Wait()
+		if bad != "" {
+			fmt.Println("RACEPASS-MISMATCH", bad)
+		}
+	}
+	// the typed flavour (Context.BindValidRequest with the caller's own binder), including a route whose
+	// bodies are admitted only through a wildcard consumes entry
+	{
+		w := newWorld(false)
+		s := newSite(w)
+		reqs := typedRequests()
+		want := make([]string, len(reqs))
+		for i, rs := range reqs {
+			want[i] = s.typedBind(rs)
+		}
+		s = newSite(newWorld(false)) // cold handler for the concurrent phase
+		var wg sync.WaitGroup
+		var mu sync.Mutex
+		bad := ""
+		for g := 0; g < 16; g++ {
+			g := g
+			wg.Add(1)
+			go func() {
+				defer wg.Done()
+				for it := 0; it < 120; it++ {
+					i := (g + it) % len(reqs)
+					if got := s.typedBind(reqs[i]); got != want[i] {
+						mu.Lock()
+						bad = fmt.Sprintf("typed flavour, request %s: got %s want %s", reqs[i].Name, got, want[i])
 						mu.Unlock()
 					}
 				}
